@@ -37,6 +37,10 @@ def gen_cases(ctx):
     n = ctx.params.get("cases") or (400 if ctx.tier == "quick" else 8000)
     for i in range(n):
         yield dict(id="inv%05d" % i, i=i)
+    if not ctx.params.get("cases"):
+        # the shipped isotope problem (example 18) and variants with the phase list / the isotope list in another order
+        for k in range(6 if ctx.tier == "quick" else 40):
+            yield dict(id="iso%03d" % k, i=k, kind="isotopes")
 
 
 def water(r, num):
@@ -283,7 +287,76 @@ def cl1_monitor(recs, nsol=0):
     return ev, st
 
 
+def run_isotopes(ctx, case):
+    """example 18 (13C and 34S balances): every printed adjustment of a phase's isotopic composition lies within the uncertainty declared for it on the -phases line,
+    in the shipped order and with the -isotopes list and the -phases lines reordered (variant 0 is the example as shipped)"""
+    from vlib import examples
+    text = examples.text(ctx.repo, "ex18")
+    r = ctx.rng("iso", case["i"])
+    lines = text.split("\n")
+    # locate the -isotopes and -phases option blocks of INVERSE_MODELING
+    def block(opt):
+        a = next(i for i, l in enumerate(lines) if l.strip().lower().startswith(opt))
+        b = a + 1
+        while b < len(lines) and lines[b].strip() and not lines[b].strip().startswith("-") and not lines[b].strip().upper().startswith(("END", "PHASES", "EXCHANGE", "SELECTED")):
+            b += 1
+        return a, b
+    ia, ib = block("-isotopes")
+    pa, pb = block("-phases")
+    if case["i"] > 0:
+        iso = lines[ia + 1:ib]
+        r.shuffle(iso)
+        ph = lines[pa + 1:pb]
+        r.shuffle(ph)
+        lines[pa + 1:pb] = ph        # (indices of the first block are unaffected: -isotopes comes first)
+        lines[ia + 1:ib] = iso
+    declared = {}
+    for l in lines[pa + 1:pb]:
+        w = l.split()
+        if not w:
+            continue
+        rest = w[1:]
+        if rest and rest[0] in ("dis", "pre", "dissolve", "precipitate"):
+            rest = rest[1:]
+        for j in range(0, len(rest) - 2, 3):
+            try:
+                declared[(rest[j], w[0])] = (float(rest[j + 1]), float(rest[j + 2]))
+            except ValueError:
+                pass
+    cwd = ctx.scratch(case["id"])
+    s = core.Script()
+    s.raw("new a")
+    s.raw("loaddb a " + examples.db(ctx.repo, "ex18"))
+    s.raw("set a OutputStringOn 1")
+    s.run("a", "\n".join(lines))
+    s.raw("snap a oe")
+    run = core.run_vdrive(ctx.bin("opt"), s.bytes(), cwd, timeout=120)
+    if core.process_failure(run):
+        return Result(INCONCLUSIVE, reason="process failure")
+    rr, sn = core.rets(run, "run"), core.rets(run, "snap")
+    if not rr or rr[0].get("r") != 0 or not sn:
+        return Result(INCONCLUSIVE, reason="isotope problem reports errors")
+    out = sn[0]["output"].get("text", "")
+    nchk, findings, sigs = 0, [], set()
+    for mm in re.finditer(r"(?m)^\s+(\S+)\s+(\S+)\s+([-+0-9.eE]+)\s+\+\s+([-+0-9.eE]+)\s+=\s+([-+0-9.eE]+)\s*(?:\*\*)?\s*$", out):      # the engine marks a row it knows to be outside with '**'
+        isot, phase, inp, dl = mm.group(1), mm.group(2), float(mm.group(3)), float(mm.group(4))
+        if (isot, phase) not in declared:
+            continue
+        val, unc_ = declared[(isot, phase)]
+        nchk += 1
+        sigs.add("isotope|%s|%s" % (isot, phase))
+        if abs(dl) > unc_ * 1.0001 + 1e-5:
+            findings.append(("C18/isotope-adjustment", "%s: %s of %s is adjusted by %g, declared %g +- %g" % (case["id"], isot, phase, dl, val, unc_)))
+    if findings:
+        return Result(VIOLATED, key=findings[0][0], what=findings[0][1], findings=findings[1:], sigs=sigs, sample=dict(id=case["id"], variant=case["i"], rows=nchk), stats={"n_checks": nchk})
+    if not nchk:
+        return Result(INCONCLUSIVE, reason="no isotope rows in the output")
+    return Result(HELD, sigs=sigs, sample=dict(id=case["id"], variant=case["i"], rows=nchk), stats={"n_checks": nchk})
+
+
 def run_case(ctx, case):
+    if case.get("kind") == "isotopes":
+        return run_isotopes(ctx, case)
     fwd, inv, info = build(ctx, case)
     cwd = ctx.scratch(case["id"])
     s = core.Script()
